@@ -142,6 +142,12 @@ def replay(beh, workdir, seed, stats):
         for f in FIELDS:
             v = read_slot(h, f)
             expected[sobjs[0]['cells'][a][f]] = np.array(v, float) if f in ('pos', 'vel') else v
+    if seed % 3 == 2:
+        # a molecule without velocities (a coordinate file without the optional columns): a velocity assigned later,
+        # through the molecule or through a view of one atom, is the atom's velocity from then on
+        root.atoms_velocities = None
+        for a in range(len(hs)):
+            expected[sobjs[0]['cells'][a]['vel']] = None
     tok = 100
 
     def fail(kind, step, **kw):
